@@ -907,13 +907,18 @@ RULE = ("chain programs over names {a,b,c}: exhaustive 1- and 2-step chains over
         "at least two layers")
 TRUSTED = ["Coq 8.16.1 kernel incl. vm_compute (no native_compute)",
            "no axioms (all C02 theorems closed under the global context)",
+           "source tie: translator/gens/objwalk.py (Rust-subset parser, continuation-style emission, fixed Gallina reading of "
+           "Saturating<usize> / Vec / Option / Iterator primitives); fails closed on anything it does not recognise",
            "correspondence: jrharness eval (out=minify), vlib generators/renderers (Jsonnet text and Gallina term "
            "from one python tree), Coq term printer/parser",
            "modelled not verified: member-body evaluation is abstract in the theorems (any ev/add); the value "
            "cache and assertions_ran flag (assumed transparent, C03/C16), RUNNING_ASSERTIONS collapsed to one "
            "flag, GC sharing, FxHashMap iteration order (names per layer distinct), StandaloneSuperCore "
            "(bare `super`, a documented jrsonnet extension) is not modelled"]
-ASSUMPTIONS = ["impl-model transliterates obj/mod.rs + obj/oop.rs loops; tie = differential run on every check",
+ASSUMPTIONS = ["impl-model loops (get_idx_uncached, has_field_include_hidden_idx, field_visibility_idx, fields_visibility, "
+               "extend_from, with_fields_omitted) are proved equal to their statement-by-statement translation from the "
+               "working tree (Gen/GenObj.v, C02_model_is_translated_source_*); the per-core methods of OopObject / "
+               "OmitFieldsCore stay hand-transliterated, tied by the differential run on every check",
                "layer lists are well formed (distinct names per layer, removal ranges laminar, 2*len+2 < 2^64): "
                "proved to be preserved by +, extension and objectRemoveKey (C02_constructors_wf)",
                "spec evaluates a `+:` body before super.f (only affects which of several errors is reported)"]
